@@ -8,6 +8,7 @@ CONSTANTS
   WithClear = FALSE
   FixJoin = FALSE
   FixGrow = FALSE
+  FixStart = FALSE
   Depth = 100
 INVARIANT Dump
 CHECK_DEADLOCK FALSE
